@@ -278,12 +278,6 @@ func main() {
 			write(*lean, ln.String())
 		}
 	}
-	for i, pk := range []string{"concpkg", "concpkgb"} {
-		if err := pkgs[i].RewriteTo(filepath.Join(*work, "vs", pk)); err != nil {
-			fmt.Fprintf(os.Stderr, "genconc: rewriting onto vsched: %v\n", err)
-			os.Exit(5)
-		}
-	}
 	// conditional probe: custom error result types
 	pdir := filepath.Join(*work, "probe")
 	write(filepath.Join(pdir, "go.mod"), probeMod)
@@ -299,5 +293,12 @@ func main() {
 	}
 	write(filepath.Join(*work, "cmd", "vsrun", "main.go"), vsMain)
 	write(filepath.Join(*work, "cmd", "racerun", "main.go"), raceMain)
+	// last: the rewriting onto vsched; when it fails everything else (facts, real-runtime program, probe) is in place
+	for i, pk := range []string{"concpkg", "concpkgb"} {
+		if err := pkgs[i].RewriteTo(filepath.Join(*work, "vs", pk)); err != nil {
+			fmt.Fprintf(os.Stderr, "genconc: rewriting onto vsched: %v\n", err)
+			os.Exit(5)
+		}
+	}
 	fmt.Printf("genconc: %d emitted functions, skeletons and rewritten packages in %s\n", len(names), *work)
 }
